@@ -577,6 +577,10 @@ class Gen:
             "TRAIT ID S Vec 1 1", 1, "thread/share-vec: &Vec in another thread reaches the arena through Vec::bump", "h6t")
         add("h6t", False, "    let b = Bump::new();\n    let x = Box::new_in(7u32, &b);\n    std::thread::scope(|s| {\n        s.spawn(|| { touch(&*x); });\n        touch(b.alloc(2u32));\n    });\n",
             "TRAIT ID S Box 1 1", 1, "thread/share-box: &Box<u32> read on another thread (a Box holds no arena reference)", "h6m")
+        # the error of `String::from_utf8` carries the rejected *arena-backed* byte vector: handing it to another thread hands that
+        # thread the arena (`into_bytes().push(..)` grows it there); sharing it by reference reaches `Vec::bump` through `as_bytes`' owner
+        add("h9m", True, "    let b = Bump::new();\n    let mut v = Vec::<u8>::new_in(&b);\n    v.extend([0xffu8, 0x41]);\n    let e = String::from_utf8(v).unwrap_err();\n    std::thread::scope(|s| {\n        s.spawn(move || { let mut bytes = e.into_bytes(); for i in 0..64u8 { bytes.push(i); } });\n        for i in 0..64u64 { touch(b.alloc(i)); }\n    });\n",
+            "TRAIT ID S FromUtf8Error 1 1", 0, "thread/send-utf8-error: a FromUtf8Error taken apart on another thread grows its arena-backed Vec there", "h3t")
         add("h7m", True, "    let b = Bump::new();\n    let s0 = String::from_str_in(\"hi\", &b);\n    std::thread::scope(|s| {\n        s.spawn(|| { touch(s0.bump().alloc(1u32)); });\n        touch(b.alloc(2u32));\n    });\n",
             "TRAIT ID S String 1 1", 1, "thread/share-string: &String in another thread reaches the arena through String::bump", "h6t")
 
